@@ -50,17 +50,47 @@ def specs(ctx):
            (5, 5, 1, 2), (6, 2, 1, 3), (4, 3, 4, 4), (2, 2, 5, 5)]
 
 
+def mid_instances(W, H, kmax):
+    """
+    Mid-size instances: side lengths from {1, 2, half, half+1, side-1, side}.
+
+    Their areas exceed the range of the instance's compact storage type
+    (int8 for sides up to ~60), which the small bins never do.
+    """
+    import itertools
+    ws = sorted({v for v in (1, 2, W // 2, W // 2 + 1, W - 1, W) if v >= 1})
+    hs = sorted({v for v in (1, 2, H // 2, H // 2 + 1, H - 1, H) if v >= 1})
+    types = [(w, h) for w in ws for h in hs]
+    for k in range(1, kmax + 1):
+        for ms in itertools.combinations_with_replacement(types, k):
+            rows = []
+            for t in ms:
+                if rows and rows[-1][:2] == list(t):
+                    rows[-1][2] += 1
+                else:
+                    rows.append([t[0], t[1], 1])
+            yield rows
+
+
 def job(a):
     W, H, kmin, kmax, shard, nshards = a
+    mid = kmin < 0
     C.gen_drivers()
+    if mid:
+        C.tree_objective_driver()
     tot = np.zeros(16, np.int64)
     ninst = 0
     bads = []
     nontrivial = 0
-    for idx, rows in enumerate(C.enum_instances(W, H, kmax, kmin)):
+    for idx, rows in enumerate(mid_instances(W, H, kmax) if mid
+                               else C.enum_instances(W, H, kmax, kmin)):
         if idx % nshards != shard:
             continue
-        inst, res, mins, maxs, _, bad = C.all_packings(W, H, rows, cap=1)
+        if mid:
+            inst, res, mins, maxs, _, bad = C.decoder_packings(W, H, rows)
+        else:
+            inst, res, mins, maxs, _, bad = C.all_packings(W, H, rows,
+                                                           cap=1)
         ninst += 1
         tot[:9] += res[:9]
         n = inst.n_items
@@ -203,6 +233,31 @@ def run(ctx: Ctx) -> None:
         nontriv += nt
         for b in bads:
             report(ctx, b)
+    # mid-size bins: decoder outputs only, areas beyond the storage type
+    mids = [(12, 11, 2), (11, 12, 2), (20, 20, 3), (16, 5, 2), (100, 3, 2)]
+    if not ctx.quick:
+        mids = [(12, 11, 3), (11, 12, 3), (20, 20, 3), (16, 5, 3),
+                (100, 3, 3), (30, 30, 3), (60, 60, 3), (13, 10, 3),
+                (127, 2, 3), (50, 200, 3), (20, 20, 4)]
+    mj = [(W, H, -1, km, s_, ctx.jobs) for (W, H, km) in mids
+          for s_ in range(ctx.jobs)]
+    mout = pmap(job, mj, ctx.jobs)
+    mi = 0
+    mt = np.zeros(16, np.int64)
+    for (ni, t, bads, nt) in mout:
+        mi += ni
+        mt += t
+        nontriv += nt
+        for b in bads:
+            report(ctx, b)
+    ctx.add("states", int(mt[0]))
+    ctx.add("evaluations", int(mt[1]))
+    ctx.add("traces_validated_against_impl", int(mt[1]))
+    ctx.part("mid_size_bins_decoder_outputs", bins=[list(m) for m in mids],
+             instances=mi, decodings=int(mt[0]),
+             objective_evaluations=int(mt[1]))
+    ctx.log(f"mid-size bins: {mi} instances, {int(mt[0])} decodings, "
+            f"{int(mt[1])} objective evaluations")
     ctx.add("states", int(tot[0]))
     ctx.add("transitions", int(tot[8]))
     ctx.add("evaluations", int(tot[1]))
